@@ -22,6 +22,9 @@ func TestDebugReplay(t *testing.T) {
 	if err := json.Unmarshal(b, &rf); err != nil {
 		t.Fatal(err)
 	}
+	if rf.Property == "" && rf.Program != nil {
+		rf.Property = rf.Program.Property
+	}
 	prop := Props[rf.Property]
 	res := prop.Run(t, rf.Program)
 	for _, e := range res.Events {
